@@ -147,7 +147,7 @@ async fn sequence(ty: &str, len: usize, seed: u64) -> (Vec<(String, String)>, Ve
         };
     }
     'ops: for step in 0..len {
-        let op = r.below(10);
+        let op = r.below(11);
         if std::env::var("VERIF_VERBOSE").is_ok() {
             eprintln!("[c18] step {step} op {op} model {model:?} log {:?}", log.last());
         }
@@ -237,6 +237,50 @@ async fn sequence(ty: &str, len: usize, seed: u64) -> (Vec<(String, String)>, Ve
                     stalled.push(raw);
                 }
             }
+            10 => {
+                // unbind and at once bind the very same concrete endpoint again (ipc path, or
+                // a tcp port the harness owns): the endpoint was released by the time unbind
+                // returned, and the new listener is as good as any
+                let cands: Vec<String> = model.iter().filter(|e| e.starts_with("ipc://")).cloned().collect();
+                if let Some(ep) = cands.get(r.below(cands.len().max(1))).cloned() {
+                    log.push(format!("unbind-then-bind({ep})"));
+                    count!("op/rebind-same-endpoint");
+                    if let Err(e) = sock.unbind(&ep).await {
+                        viol.push(("C18/unbind-of-bound-endpoint-failed".into(), format!("unbind({ep}): {e}")));
+                        break 'ops;
+                    }
+                    match sock.bind(&ep).await {
+                        Ok(again) if again == ep => {}
+                        other => {
+                            viol.push((
+                                "C18/endpoint-not-released-by-unbind".into(),
+                                format!("unbind({ep}) returned Ok, binding the same endpoint right afterwards gave {other:?}"),
+                            ));
+                            break 'ops;
+                        }
+                    }
+                    // whatever the old listener still had to tidy up must not hit the new one
+                    tokio::time::sleep(Duration::from_millis(r.below(30) as u64)).await;
+                    let mut ok = false;
+                    if let Ok(Ok(mut raw)) = tokio::time::timeout(WAIT, Raw::connect(&ep)).await {
+                        let id = format!("r{}", conns.len()).into_bytes();
+                        if raw.handshake(peer_type_for(ty), Some(&id)).await.is_ok() {
+                            ok = true;
+                            if ty == "PUB" {
+                                let _ = raw.send_msg(&[vec![1u8]]).await;
+                            }
+                            conns.push(ConnRec { raw, id, ep: ep.clone() });
+                        }
+                    }
+                    if !ok {
+                        viol.push((
+                            "C18/bound-endpoint-not-connectable".into(),
+                            format!("{ep} was unbound and bound again (bind returned Ok); a connect to it does not get through"),
+                        ));
+                        break 'ops;
+                    }
+                }
+            }
             7 => {
                 let unknown = if r.chance(1, 2) || removed.is_empty() { "tcp://127.0.0.1:1".to_string() } else { removed[r.below(removed.len())].clone() };
                 log.push(format!("unbind-unknown({unknown})"));
@@ -318,6 +362,182 @@ async fn sequence(ty: &str, len: usize, seed: u64) -> (Vec<(String, String)>, Ve
     (viol, inconc, counts.into_iter().collect(), log)
 }
 
+/// Child process: `accept()` on a bound endpoint fails for a while (descriptor table
+/// full), then the condition goes away. A bind accepts any number of connections until
+/// it is unbound: the connection that was waiting and new ones are served, established
+/// traffic continues, the endpoint is still in the bind set.
+pub fn child_accept_fail(args: &[String]) -> i32 {
+    let ty = args.first().cloned().unwrap_or_else(|| "PULL".into());
+    let transport = args.get(1).cloned().unwrap_or_else(|| "tcp4".into());
+    let stallers: usize = args.get(2).and_then(|x| x.parse().ok()).unwrap_or(0);
+    let (res, _) = rig::run(2, async move {
+        let mut sock = Sock::new(&ty, None);
+        let mut mon = sock.monitor();
+        let ep = sock.bind(&rig::bind_endpoint(&transport)).await?;
+        let peer_ty = peer_type_for(&ty);
+        let mut est = ConnRec { raw: Raw::connect(&ep).await.map_err(|e| e.to_string())?, id: b"established".to_vec(), ep: ep.clone() };
+        est.raw.handshake(peer_ty, Some(b"established")).await?;
+        if ty == "PUB" {
+            let _ = est.raw.send_msg(&[vec![1u8]]).await;
+        }
+        tokio::time::sleep(Duration::from_millis(30)).await;
+        exchange(&mut sock, &mut est, 1).await.map_err(|e| format!("setup exchange: {e}"))?;
+        // clients that connect and say nothing (they hold descriptors on both sides)
+        let mut silent = Vec::new();
+        for _ in 0..stallers {
+            silent.push(Raw::connect(&ep).await.map_err(|e| e.to_string())?);
+        }
+        tokio::time::sleep(Duration::from_millis(30)).await;
+        // ---- fill the descriptor table, leaving exactly one slot
+        let mut old = libc::rlimit { rlim_cur: 0, rlim_max: 0 };
+        if unsafe { libc::getrlimit(libc::RLIMIT_NOFILE, &mut old) } != 0 {
+            return Err("getrlimit failed".into());
+        }
+        let used = rig::open_fds() as u64;
+        let low = libc::rlimit { rlim_cur: (used + 24).min(old.rlim_max), rlim_max: old.rlim_max };
+        if unsafe { libc::setrlimit(libc::RLIMIT_NOFILE, &low) } != 0 {
+            return Err("setrlimit failed".into());
+        }
+        let mut filler = Vec::new();
+        while let Ok(f) = std::fs::File::open("/dev/null") {
+            filler.push(f);
+            if filler.len() > 4096 {
+                break;
+            }
+        }
+        filler.pop(); // one free slot: the client's own socket
+        #[allow(deprecated)]
+        while let Ok(Some(_)) = mon.try_next() {}
+        let waiting = Raw::connect(&ep).await;
+        // the listener now has a connection to accept and no descriptor to accept it with
+        tokio::time::sleep(Duration::from_millis(120)).await;
+        drop(filler);
+        unsafe { libc::setrlimit(libc::RLIMIT_NOFILE, &old) };
+        // what the listener went through, as its monitor tells it
+        let mut accept_errors = 0u64;
+        #[allow(deprecated)]
+        while let Ok(Some(ev)) = mon.try_next() {
+            if let zeromq::SocketEvent::AcceptFailed(_) = ev {
+                accept_errors += 1;
+            }
+        }
+        // ---- the condition is gone
+        let mut problems: Vec<String> = Vec::new();
+        // the waiting connection itself may have been refused/reset while the table was
+        // full; only a listener that never comes back is judged, through the next client
+        let waiting_ok = match waiting {
+            Ok(mut w) => match tokio::time::timeout(WAIT, w.handshake(peer_ty, Some(b"waiting"))).await {
+                Ok(Ok(_)) => true,
+                Ok(Err(e)) => {
+                    problems.push(format!("waiting client: {e}"));
+                    false
+                }
+                Err(_) => false,
+            },
+            Err(e) => {
+                problems.push(format!("waiting client: connect: {e}"));
+                false
+            }
+        };
+        let mut fresh_err = String::new();
+        let mut fresh_ok = false;
+        let deadline = std::time::Instant::now() + WAIT;
+        while std::time::Instant::now() < deadline {
+            match tokio::time::timeout(WAIT, Raw::connect(&ep)).await {
+                Ok(Ok(mut raw)) => match raw.handshake(peer_ty, Some(b"fresh")).await {
+                    Ok(_) => {
+                        fresh_ok = true;
+                        break;
+                    }
+                    Err(e) => fresh_err = format!("handshake: {e}"),
+                },
+                Ok(Err(e)) => fresh_err = format!("connect: {e}"),
+                Err(_) => fresh_err = "connect timed out".into(),
+            }
+            tokio::time::sleep(Duration::from_millis(50)).await;
+        }
+        let est_res = exchange(&mut sock, &mut est, 2).await;
+        let in_set = sock.binds().contains(&ep);
+        let canary = rig::canary_ok().await;
+        println!(
+            "ACCEPTFAIL {}",
+            json!({"ty": ty, "transport": transport, "stallers": stallers, "waiting_ok": waiting_ok, "fresh_ok": fresh_ok, "fresh_err": fresh_err,
+                   "established_ok": est_res.is_ok(), "established_err": est_res.err().unwrap_or_default(),
+                   "in_bind_set": in_set, "canary_ok": canary, "notes": problems, "accept_errors_reported": accept_errors})
+        );
+        drop(silent);
+        let _ = tokio::time::timeout(WAIT, sock.close()).await;
+        Ok::<(), String>(())
+    });
+    match res {
+        Ok(()) => 0,
+        Err(e) => {
+            println!("ACCEPTFAIL-ERROR {e}");
+            1
+        }
+    }
+}
+
+/// Parent side of the child above; `me` is C18 or C20.
+pub fn accept_fail_case(me: &str, ctx: &mut Ctx, case: &Value) {
+    use std::process::{Command, Stdio};
+    let ty = s(case, "ty").to_string();
+    let transport = s(case, "transport").to_string();
+    let stallers = u(case, "stallers");
+    ctx.eval(hash_str(&case.to_string()), true);
+    ctx.sample("accept_errors", || case.clone());
+    let exe = std::env::current_exe().expect("current_exe");
+    let out = Command::new(exe)
+        .args(["child", "acceptfail", &ty, &transport, &stallers.to_string()])
+        .stdout(Stdio::piped())
+        .stderr(Stdio::null())
+        .output();
+    let text = match out {
+        Ok(o) => String::from_utf8_lossy(&o.stdout).into_owned(),
+        Err(e) => {
+            ctx.inconclusive(format!("{me} accept errors: cannot run child: {e}"));
+            return;
+        }
+    };
+    let Some(line) = text.lines().find(|l| l.starts_with("ACCEPTFAIL ")) else {
+        ctx.inconclusive(format!("{me} accept errors {ty}/{transport}: {}", text.lines().last().unwrap_or("no output")));
+        return;
+    };
+    let v: Value = serde_json::from_str(&line["ACCEPTFAIL ".len()..]).unwrap_or(Value::Null);
+    let b = |k: &str| v[k].as_bool().unwrap_or(false);
+    if u(&v, "accept_errors_reported") == 0 && b("fresh_ok") {
+        // the listener never saw accept() fail: nothing was exercised
+        ctx.count("episodes_in_which_accept_did_not_fail");
+        return;
+    }
+    ctx.count("accept_error_episodes");
+    ctx.count(&format!("accept_error_episodes/{transport}"));
+    ctx.add("accept_errors_reported_by_the_monitor", u(&v, "accept_errors_reported"));
+    if b("waiting_ok") {
+        ctx.count("connections_served_after_waiting_through_accept_errors");
+    }
+    let mut bad: Vec<(String, String)> = Vec::new();
+    if !b("fresh_ok") {
+        bad.push((
+            format!("{me}/listener-dead-after-transient-accept-error/{transport}"),
+            format!("{ty} bound on {transport}: accept() failed for a while (descriptor table full, {stallers} silent clients connected); afterwards, with the endpoint still bound (in bind set: {}), no new client gets through: {}", b("in_bind_set"), s(&v, "fresh_err")),
+        ));
+    }
+    if !b("established_ok") {
+        bad.push((format!("{me}/established-traffic-interrupted-by-accept-error/{transport}"), s(&v, "established_err").to_string()));
+    }
+    if me == "C18" && !b("in_bind_set") {
+        bad.push(("C18/bind-set-differs-from-model".into(), "the endpoint left the bind set without unbind".into()));
+    }
+    for (sig, msg) in bad {
+        if b("canary_ok") {
+            ctx.violation_with(&sig, msg, case.clone());
+        } else {
+            ctx.inconclusive(format!("{me} accept errors: {msg} (canary slow)"));
+        }
+    }
+}
+
 impl Prop for C18 {
     fn id(&self) -> &'static str {
         "C18"
@@ -325,6 +545,11 @@ impl Prop for C18 {
 
     fn cases(&self, tier: Tier, seed: u64) -> Vec<Value> {
         let mut v = Vec::new();
+        for ty in ["REP", "PULL", "PUB", "ROUTER"] {
+            for transport in ["tcp4", "tcp6", "ipc"] {
+                v.push(json!({"kind": "accept_errors", "ty": ty, "transport": transport, "stallers": 0}));
+            }
+        }
         for ty in ["REP", "PULL", "PUB", "ROUTER"] {
             for k in 0..tier.pick(30, 300) {
                 let len = 10 + (k % 4) * 10;
@@ -336,6 +561,10 @@ impl Prop for C18 {
 
     fn run(&self, case: &Value, ctx: &mut Ctx) {
         let ty = s(case, "ty").to_string();
+        if s(case, "kind") == "accept_errors" {
+            accept_fail_case("C18", ctx, case);
+            return;
+        }
         ctx.eval(hash_str(&case.to_string()), true);
         let ((viol, inconc, counts, log), _alive) = rig::run(2, sequence(&ty, u(case, "len") as usize, u(case, "seed")));
         ctx.count("sequences");
@@ -363,6 +592,8 @@ impl Prop for C18 {
             ("op/unbind-unknown", 20),
             ("op/connect-and-exchange", 20),
             ("op/stalled-client", 10),
+            ("op/rebind-same-endpoint", 10),
+            ("accept_error_episodes", 12),
             ("unbind_with_other_binds_alive", 10),
             ("endpoints_probed", 100),
             ("exchanges", 200),
